@@ -259,3 +259,177 @@ func TestC12Blocks(t *testing.T) {
 	exhaustiveLimit = 2048
 	rapid.Check(t, c12Prop(st, FamBlocks))
 }
+
+// ---- >1024-document merges: faults and cancellations enumerated per Write call ----
+
+const c12WideRule = "case = public merge of a >1024-document input (2..4 doc-value fields present in drawn ranges only) and a second input (small or again >1024 documents), drops drawn, merge buffer from {16,64,1024}; " +
+	"the fault-free run records where every Write call of the destination ends; then for EVERY Write call c (<= 400 calls, else every call within 2 of a write of >= 64 bytes, ~120 evenly spaced other calls and the last 20): the close channel is closed during call c " +
+	"(result must be ErrClosed, or nil with the complete fault-free file), and (for every write of >= 64 bytes and every 8th other call) the writer fails forever from call c on, and fails only call c (both must yield a non-nil error); " +
+	"non-trivial = >= 2 doc-value chunks of one field written and a cancellation observed between them (both outcomes, closed and complete, occur in the case); distinct = hash of the workload text"
+
+type recordingWriter struct {
+	ends []int
+	n    int
+}
+
+func (w *recordingWriter) Write(p []byte) (int, error) {
+	w.n += len(p)
+	w.ends = append(w.ends, w.n)
+	return len(p), nil
+}
+
+func c12WideProp(st *CaseStats) func(t *rapid.T) {
+	return func(t *rapid.T) {
+		ctx := &Ctx{}
+		defer ctx.Close()
+		sc := GenScenario(t)
+		nIn := 2
+		ins := make([]*SegCase, nIn)
+		segs := make([]segment.Segment, nIn)
+		drops := make([]*roaring.Bitmap, nIn)
+		desc := sc.String()
+		bigSecond := rapid.IntRange(0, 2).Draw(t, "bigSecond") > 0
+		for i := range ins {
+			fam := FamDVGaps
+			if i == 1 && !bigSecond {
+				fam = FamSmall
+			}
+			var err error
+			ins[i], err = GenLeaf(t, ctx, sc, CaseCfg{Family: fam, MaxDocs: 6}, fmt.Sprintf("i%d", i))
+			if err != nil {
+				t.Fatalf("%s: %v", sc, err)
+			}
+			if err := ins[i].reload(ctx, holdMem); err != nil {
+				t.Fatalf("%s: %v", sc, err)
+			}
+			segs[i] = ins[i].Seg
+			drops[i] = GenDrops(t, ins[i].Exp.N, fmt.Sprintf("i%d", i))
+			if i == 0 && rapid.Bool().Draw(t, "keepAllOfFirst") {
+				drops[i] = nil
+			}
+			desc += fmt.Sprintf(" IN%d=%s drop=%s", i, ins[i].Desc, bmString(drops[i]))
+		}
+		if rapid.Bool().Draw(t, "smallFirst") {
+			ins[0], ins[1], segs[0], segs[1], drops[0], drops[1] = ins[1], ins[0], segs[1], segs[0], drops[1], drops[0]
+			desc += " (inputs swapped)"
+		}
+		bufSize := rapid.SampledFrom([]int{16, 64, 1024}).Draw(t, "bufSize")
+		desc += fmt.Sprintf(" mergeBuf=%d", bufSize)
+		var goodBuf bytes.Buffer
+		gn, err := ice.Merge(segs, drops, bufSize).WriteTo(&goodBuf, nil)
+		if err != nil {
+			t.Fatalf("%s: fault-free merge: %v", desc, err)
+		}
+		good := goodBuf.Bytes()
+		if gn != int64(len(good)) {
+			t.Fatalf("%s: fault-free merge returned %d, wrote %d", desc, gn, len(good))
+		}
+		rec := &recordingWriter{}
+		if _, err := ice.Merge(segs, drops, bufSize).WriteTo(rec, nil); err != nil || rec.n != len(good) {
+			t.Fatalf("%s: recording run: %v (%d of %d bytes)", desc, err, rec.n, len(good))
+		}
+		// the Write calls to attack
+		calls := map[int]bool{}
+		if len(rec.ends) <= 400 {
+			for c := range rec.ends {
+				calls[c] = true
+			}
+		} else {
+			prev := 0
+			for c, e := range rec.ends {
+				if e-prev >= 64 {
+					for d := -2; d <= 2; d++ {
+						if c+d >= 0 && c+d < len(rec.ends) {
+							calls[c+d] = true
+						}
+					}
+				}
+				prev = e
+			}
+			// plus ~120 evenly spaced calls and the last 20
+			step := len(rec.ends)/120 + 1
+			for c := 0; c < len(rec.ends); c += step {
+				calls[c] = true
+			}
+			for c := len(rec.ends) - 20; c < len(rec.ends); c++ {
+				calls[c] = true
+			}
+		}
+		order := make([]int, 0, len(calls))
+		for c := range calls {
+			order = append(order, c)
+		}
+		sort.Ints(order)
+		inner, nClosed, nComplete := 0, 0, 0
+		for _, c := range order {
+			start := 0
+			if c > 0 {
+				start = rec.ends[c-1]
+			}
+			// the close channel closed while call c is being written
+			w := &closeAt{k: start + 1, ch: make(chan struct{})}
+			var n int64
+			err := safely("Merger.WriteTo(close channel)", func() error {
+				var e error
+				n, e = ice.Merge(segs, drops, bufSize).WriteTo(w, w.ch)
+				return e
+			})
+			inner++
+			switch {
+			case err == nil:
+				if !bytes.Equal(w.buf.Bytes(), good) || n != int64(len(good)) {
+					t.Fatalf("%s:\n  merge with the close channel closed during Write call %d (bytes %d..%d) reported success (n=%d) but wrote %d bytes; the complete file has %d bytes (first difference at %d)",
+						desc, c, start, rec.ends[c], n, w.buf.Len(), len(good), firstDiff(w.buf.Bytes(), good))
+				}
+				nComplete++
+			case errors.Is(err, segment.ErrClosed):
+				nClosed++
+			case isPanic(err):
+				t.Fatalf("%s:\n  merge with the close channel closed during Write call %d: %v", desc, c, err)
+			}
+			// the writer failing from this call on / only in this call (every large write, every 8th small one)
+			if rec.ends[c]-start < 64 && c%8 != 0 {
+				continue
+			}
+			for _, fw := range []interface {
+				Write([]byte) (int, error)
+			}{&failAfter{k: start}, &failOnce{k: start}} {
+				err := safely("Merger.WriteTo(failing writer)", func() error {
+					var e error
+					n, e = ice.Merge(segs, drops, bufSize).WriteTo(fw, nil)
+					return e
+				})
+				inner++
+				if err == nil {
+					t.Fatalf("%s:\n  Merger.WriteTo reported success (n=%d) although the writer (%T) failed in Write call %d at byte %d of %d", desc, n, fw, c, start, len(good))
+				}
+				if isPanic(err) {
+					t.Fatalf("%s:\n  Merger.WriteTo, writer (%T) failing in Write call %d: %v", desc, fw, c, err)
+				}
+			}
+		}
+		st.AddInner(inner)
+		st.Label("closed-outcomes", nClosed)
+		st.Label("complete-outcomes", nComplete)
+		labels := []string{fmt.Sprintf("buf=%d", bufSize)}
+		if len(rec.ends) <= 400 {
+			labels = append(labels, "write-calls-exhaustive")
+		} else {
+			labels = append(labels, "write-calls-sampled")
+		}
+		st.Record(desc, nClosed > 0 && nComplete > 0, labels...)
+	}
+}
+
+func TestC12Wide(t *testing.T) {
+	st := NewStats("C12Wide", c12WideRule)
+	defer st.Flush()
+	rapid.Check(t, c12WideProp(st))
+}
+
+// a second, independently seeded instance (the driver runs tests as parallel processes)
+func TestC12WideB(t *testing.T) {
+	st := NewStats("C12WideB", c12WideRule)
+	defer st.Flush()
+	rapid.Check(t, c12WideProp(st))
+}
